@@ -1054,10 +1054,11 @@ pub fn c10_worker(ctx: &mut Ctx) {
         let size = ctx.size();
         let (grid, lat, tri, star_n) = if size <= 1 { (7, 4, 5, 12) } else { (12, 7, 8, 24) };
         let mut rej = 0;
-        let case = match rng.below(8) {
+        let case = match rng.below(9) {
             0..=2 => gen_rect(&mut rng, grid),
             3..=5 => gen_lattice(&mut rng, lat),
             6 => gen_tri(&mut rng, tri, true),
+            8 => gen_shallow_upto(&mut rng, 14),
             _ => gen_general_retry(&mut rng, star_n, 0.0, true, false, &mut rej),
         };
         ctx.cnt("generator_rejections_outside_robust_domain", rej);
